@@ -6,7 +6,7 @@ import re
 
 
 def _all_tagged(why, tag):
-    reasons = [r.strip() for r in why.split("; ") if r.strip()]
+    reasons = [r.strip() for r in why.split(" ;; ") if r.strip()]
     # correspondence notes (impl vs model) never start with '[dev:' and never occur for known findings,
     # because the model follows the code as it is
     return bool(reasons) and all(r.startswith(f"[dev:{tag}]") for r in reasons)
